@@ -94,7 +94,7 @@ def b_isinstance(ex, node, st):
         elif c.kind == "tuple":
             r = z3.Or(*[sub(cls(vt), x.t) for x in c.t])
         elif c.kind == "val":
-            r = sub(cls(vt), c.t)  # isinstance(x, self.expected): a run-time class value
+            r = T.inst_rt(vt, c.t)  # isinstance(x, self.expected): a run-time class (or tuple of classes)
         else:
             raise Unsupported("isinstance class argument")
         outs.append((s, "val", sv_bool(r)))
@@ -715,15 +715,153 @@ CONTAINER_METHODS = {
 
 
 # ---------------------------------------------------------------------------
-# comprehensions (single `for`, optional single `if`) over sequences and dict keys
+# comprehensions: one `for` clause (sequence, enumerate(sequence), dict.items() / keys), no `if`.
+# The element expression is evaluated once on a symbolic element; the result container is
+# described by quantified facts; an exception raised for some element propagates (for the first
+# such element of a sequence).
+
+
+def _comp_domain(ex, gen, st):
+    """-> (state, sort, u, dom(u) as a function, bind(state_u), ordered) or raises Unsupported"""
+    if gen.ifs or gen.is_async:
+        raise Unsupported(f"comprehension with a condition at {ex.where(gen.iter)}")
+    it = gen.iter
+    enum = False
+    if isinstance(it, ast.Call) and isinstance(it.func, ast.Name) and it.func.id == "enumerate":
+        enum, it = True, it.args[0]
+    if isinstance(it, ast.Call) and isinstance(it.func, ast.Attribute) and it.func.attr in ("items", "keys", "values") and not it.args:
+        mode, base = it.func.attr, it.func.value
+        evs = ex.eval(base, st)
+        if len(evs) != 1 or evs[0][1] != "val":
+            raise Unsupported("comprehension source raising")
+        s, _, d = evs[0]
+        dt = as_val(d)
+        s.assume(z3.Or(isinst(dt, "dict")))
+        h = Heap(ex, s)
+        u = ex.fresh("ck")
+        has, get = h.arr("dhas")[dt], h.arr("dget")[dt]
+
+        def bind(su):
+            tgt = gen.target
+            if mode == "items":
+                su.env[tgt.elts[0].id] = sv_val(u)
+                su.env[tgt.elts[1].id] = sv_val(get[u])
+            elif mode == "keys":
+                su.env[tgt.id] = sv_val(u)
+            else:
+                su.env[tgt.id] = sv_val(get[u])
+
+        return s, u, (lambda x: has[x]), bind, False, None
+    kind = ex.container_kind(it)
+    evs = ex.eval(it, st)
+    if len(evs) != 1 or evs[0][1] != "val":
+        raise Unsupported("comprehension source raising")
+    s, _, q = evs[0]
+    qt = as_val(q)
+    if kind in ("list", "tuple", "seq"):
+        s.assume(z3.Or(isinst(qt, "list"), isinst(qt, "tuple")))
+        h = Heap(ex, s)
+        u = ex.fresh("cj", T.I)
+        n = h.llen(qt)
+        items = h.arr("lget")[qt]
+
+        def bind(su):
+            tgt = gen.target
+            if enum:
+                su.env[tgt.elts[0].id] = sv_int(u)
+                su.env[tgt.elts[1].id] = sv_val(items[u])
+            else:
+                su.env[tgt.id] = sv_val(items[u])
+
+        return s, u, (lambda x: z3.And(x >= 0, x < n)), bind, True, n
+    raise Unsupported(f"comprehension over kind {kind}")
+
+
+def _comp_eval(ex, node, st, exprs):
+    """evaluate `exprs` on a symbolic element: -> (state, u, dom, ordered, n, ok(u), [value terms], raise_cases)"""
+    if len(node.generators) != 1:
+        raise Unsupported("comprehension with several for clauses")
+    s, u, dom, bind, ordered, n = _comp_domain(ex, node.generators[0], st)
+    su = s.fork()
+    su.assume(dom(u))
+    bind(su)
+    base_len = len(su.pc)
+    heap_before = dict(su.heap)
+    outs = ex.eval_many(exprs, su)
+    oks, excs = [], []
+    for so, k, vs in outs:
+        cond = z3.And(*so.pc[base_len:]) if len(so.pc) > base_len else z3.BoolVal(True)
+        for hn, arr in so.heap.items():
+            if hn in heap_before and not arr.eq(heap_before[hn]) and hn != "alloc":
+                raise Unsupported("comprehension element with a heap effect")
+        if k == "exc":
+            excs.append((cond, vs))
+        else:
+            oks.append((cond, [ex.val_of(v) for v in vs]))
+    if not oks:
+        raise Unsupported("comprehension element always raising")
+    ok = z3.Or(*[c for c, _ in oks])
+    vals = []
+    for i in range(len(exprs)):
+        t = oks[-1][1][i]
+        for c, vs in reversed(oks[:-1]):
+            t = z3.If(c, vs[i], t)
+        vals.append(t)
+    s.env = dict(st.env)
+    return s, u, dom, ordered, n, ok, vals, excs
+
+
+def _comp_outcomes(ex, s, u, dom, ordered, ok, excs, build):
+    """normal outcome when every element evaluates; else the exception of a failing element"""
+    outs = []
+    ub = z3.Const("cu", u.sort())
+    all_ok = T.forall([ub], z3.Implies(dom(ub), z3.substitute(ok, (u, ub))))
+    good = s.fork().assume(all_ok)
+    if ex.feasible(good):
+        outs.append((good, "val", sv_val(build(good))))
+    if excs:
+        bad = s.fork()
+        u0 = ex.fresh("cfail", u.sort())
+        bad.assume(dom(u0), z3.Not(z3.substitute(ok, (u, u0))))
+        if ordered:
+            bad.assume(T.forall([ub], z3.Implies(z3.And(dom(ub), ub < u0), z3.substitute(ok, (u, ub)))))
+        for cond, e in excs:
+            b2 = bad.fork().assume(z3.substitute(cond, (u, u0)))
+            if ex.feasible(b2):
+                outs.append((b2, "exc", z3.substitute(e, (u, u0))))
+    return outs
 
 
 def eval_listcomp(ex, node, st):
-    raise Unsupported(f"list comprehension at {ex.where(node)}")
+    s, u, dom, ordered, n, ok, vals, excs = _comp_eval(ex, node, st, [node.elt])
+    if not ordered:
+        raise Unsupported("list comprehension over an unordered source")
+
+    def build(g):
+        arr = ex.fresh("lc", T.ArrIV)
+        ub = z3.Int("cu")
+        g.assume(T.forall([ub], z3.Implies(dom(ub), arr[ub] == z3.substitute(vals[0], (u, ub))), patterns=[arr[ub]]))
+        return ex.new_list(g, n, arr, hint="list")
+
+    return _comp_outcomes(ex, s, u, dom, ordered, ok, excs, build)
 
 
 def eval_dictcomp(ex, node, st):
-    raise Unsupported(f"dict comprehension at {ex.where(node)}")
+    s, u, dom, ordered, n, ok, vals, excs = _comp_eval(ex, node, st, [node.key, node.value])
+
+    def build(g):
+        has, get = ex.fresh("dch", T.ArrVB), ex.fresh("dcg", T.ArrVV)
+        ub = z3.Const("cu", u.sort())
+        x = z3.Const("cx", Val)
+        kx = lambda t: z3.substitute(vals[0], (u, t))  # noqa: E731
+        vx = lambda t: z3.substitute(vals[1], (u, t))  # noqa: E731
+        g.assume(T.forall([ub], z3.Implies(dom(ub), has[kx(ub)])))
+        g.assume(T.forall([x], z3.Implies(has[x], z3.Exists([ub], z3.And(dom(ub), x == kx(ub), get[x] == vx(ub)))), patterns=[has[x]]))
+        ln = ex.fresh("dcl", T.I)
+        g.assume(ln >= 0, (ln == 0) == z3.Not(z3.Exists([ub], dom(ub))))
+        return ex.new_dict(g, has, get, ln, hint="dict")
+
+    return _comp_outcomes(ex, s, u, dom, ordered, ok, excs, build)
 
 
 # --- float(x) / int(x): conversions of primitives ---------------------------------------
@@ -1011,3 +1149,53 @@ def b_sorted(ex, node, st):
 
 
 BUILTINS["sorted"] = b_sorted
+
+
+def b_getattr(ex, node, st):
+    """getattr(obj, name) for a run-time name: the value dynattr(obj, name); AttributeError is
+    excluded by the well-typedness precondition of the serialization contracts"""
+    outs = []
+    for s, k, vs in ex.eval_many(node.args, st):
+        if k == "exc":
+            outs.append((s, k, vs))
+            continue
+        outs.append((s, "val", sv_val(T.dynattr(ex.val_of(vs[0]), ex.val_of(vs[1])))))
+    return outs
+
+
+BUILTINS["getattr"] = b_getattr
+
+
+def m_update(ex, node, st, rt):
+    """d.update(other_dict): keys of other added / overwritten"""
+    outs = []
+    for s, k, vs in _args(ex, node, st):
+        if k == "exc":
+            outs.append((s, k, vs))
+            continue
+        if ex.container_kind(node.func.value) != "dict":
+            raise Unsupported("update on non-dict")
+        src = as_val(vs[0])
+        okc = z3.And(isinst(rt, "dict"), isinst(src, "dict"))
+        bad = s.fork().assume(z3.Not(okc))
+        if ex.feasible(bad):
+            outs.append(_exc(ex, bad, "TypeError"))
+        s.assume(okc)
+        ex.check_store_allowed(s, rt, node)
+        ex.on_store(s, rt)
+        h = Heap(ex, s)
+        nh, ng = ex.fresh("uh", T.ArrVB), ex.fresh("ug", T.ArrVV)
+        kk = z3.Const("kk", Val)
+        oh, og, sh, sg = h.arr("dhas")[rt], h.arr("dget")[rt], h.arr("dhas")[src], h.arr("dget")[src]
+        s.assume(T.forall([kk], nh[kk] == z3.Or(oh[kk], sh[kk]), patterns=[nh[kk]]))
+        s.assume(T.forall([kk], ng[kk] == z3.If(sh[kk], sg[kk], og[kk]), patterns=[ng[kk]]))
+        nl = ex.fresh("ul", T.I)
+        s.assume(nl >= h.dlen(rt), nl >= 0)
+        h.set("dhas", z3.Store(h.arr("dhas"), rt, nh))
+        h.set("dget", z3.Store(h.arr("dget"), rt, ng))
+        h.set("dlen", z3.Store(h.arr("dlen"), rt, nl))
+        outs.append((s, "val", sv_val(T.None_)))
+    return outs
+
+
+CONTAINER_METHODS["update"] = m_update
